@@ -3,6 +3,8 @@ C11 — tie theorem: `ShapeConnectionPin::directions()` as generated from /repo'
 libavoid/connectionpin.cpp by cpp2lean on every run is the hand model `pinDirections` of Model/Pins.lean.
 -/
 import AdaptaVerif.Gen.PinDirs
+import AdaptaVerif.Gen.Comparators
+import AdaptaVerif.Lemmas.StrictWeakOrder
 import AdaptaVerif.Model.Pins
 namespace AdaptaVerif.Props.C11Tie
 open AdaptaVerif.Model.Pins
@@ -22,5 +24,46 @@ theorem gen_directions_no_assertion (s : PinSpec) :
   simp only [AdaptaVerif.Gen.PinDirs.directions_pre]
   by_cases h0 : s.visDirs = 0 <;> by_cases hx0 : s.xOff = 0 <;> by_cases hx1 : s.xOff = 1 <;>
     by_cases hy0 : s.yOff = 0 <;> by_cases hy1 : s.yOff = 1 <;> simp [h0, hx0, hx1, hy0, hy1]
+
+/-! ### `ShapeConnectionPin::operator<` — the order of `ShapeConnectionPinSet` (std::set) of every shape and junction
+
+Regenerated from connectionpin.cpp on every run.  The set keeps one pin per equivalence class of
+this order, and `ConnEnd::assignPinVisibilityTo` / `getPossiblePinPoints` iterate the set in this
+order; a comparator that forgets a key silently drops a pin the user added (the pin is never in
+the set, so connectors never attach to it). -/
+
+open AdaptaVerif.Gen.Comparators AdaptaVerif.Model.CmpKeys AdaptaVerif.Lemmas.SWO
+
+/-- `a < b` in argument order (the generated function takes `rhs` first) -/
+abbrev pinLess (a b : PinKey) : Bool := pinLt b a
+
+theorem gen_pinLt_is_lex :
+    pinLess = cmpBy PinKey.objId (cmpBy PinKey.classId (cmpBy PinKey.visDirs (cmpBy PinKey.xOff
+      (cmpBy PinKey.yOff (cmpBy PinKey.insideOff (fun _ _ => false)))))) := by
+  funext a b; simp [pinLess, pinLt, cmpBy]
+
+/-- the comparator satisfies the C++ `Compare` requirements (otherwise std::set is undefined behaviour) -/
+theorem pinLt_strict_weak_order : IsSWO pinLess := by
+  rw [gen_pinLt_is_lex]
+  exact swo_cmpBy _ (swo_cmpBy _ (swo_cmpBy _ (swo_cmpBy _ (swo_cmpBy _ (swo_cmpBy _ swo_false)))))
+
+/-- two pins are the same set element iff they agree on owner, class, direction flags, x offset,
+    y offset and inside offset: pins that differ in ANY of these coexist on a shape -/
+theorem pinLt_equiv_iff (a b : PinKey) :
+    Incomp pinLess a b ↔ a.objId = b.objId ∧ a.classId = b.classId ∧ a.visDirs = b.visDirs ∧
+      a.xOff = b.xOff ∧ a.yOff = b.yOff ∧ a.insideOff = b.insideOff := by
+  rw [gen_pinLt_is_lex]; simp only [incomp_cmpBy, incomp_false, and_true]
+
+/-- in particular two pins of one class on one shape that differ only in their y offset are both
+    kept (the configuration of seeded change C11-1) -/
+theorem pins_differing_in_y_coexist (a b : PinKey) (h : a.yOff ≠ b.yOff) : ¬ Incomp pinLess a b := by
+  rw [pinLt_equiv_iff]; intro hh; exact h hh.2.2.2.2.1
+
+/-- the `COLA_ASSERT(m_router == rhs.m_router)` is the only assertion -/
+theorem pinLt_assertion_iff (a b : PinKey) : pinLt_pre b a = true ↔ a.router = b.router := by
+  simp only [pinLt_pre]
+  by_cases h : a.router = b.router <;> simp [h] <;> (repeat' split) <;> rfl
+
+example : pinLess ⟨1, 1, 0, 0, 0, 0, 9⟩ ⟨1, 1, 0, 0, 1, 0, 9⟩ = true := by decide
 
 end AdaptaVerif.Props.C11Tie
